@@ -131,6 +131,9 @@ class Check:
             self.violations.append(v)
         for k in res.get("known", []):
             self.known_hit.setdefault(k["id"], k.get("what", ""))
+        for k, v in res.get("counters", {}).items():
+            c = self.extra.setdefault("counters", {})
+            c[k] = c.get(k, 0) + v
         for n in res.get("notes", []):
             self.extra.setdefault("notes", [])
             if len(self.extra["notes"]) < 20:
